@@ -209,6 +209,9 @@ def run_program(S, prog, main, clk, stm, fn):
                     v = 0
                 ev['lb'] = int(v)
             S.emit('task_begin', **ev)
+            # a preemption point INSIDE the clock's critical section: threads that are not blocked on the library
+            # lock (i.e. running code outside any critical section) may run here, as with real threads
+            S.point()
             return k
 
         def mk_fn(name, script):
